@@ -16653,7 +16653,12 @@ func (msg *BGPUpdate) DecodeFromBytes(data []byte, options ...*MarshallingOption
 			if e.(*MessageError).Stronger(strongestError) {
 				strongestError = e
 			}
-			return strongestError
+			// The attribute runs over the end of the attribute area, whose
+			// own length is sound: the NLRI field that follows can still be
+			// located, and treat-as-withdraw needs the prefixes it names
+			// (RFC 7606 Section 4).
+			data = data[pathlen:]
+			break
 		}
 		pathlen -= pLen
 		if len(data) < p.Len(options...) {
